@@ -240,6 +240,9 @@ class LockSemantics(object):
             pre.append(a['path'][p] != 0 if outcome == 'ok' else a['path'][p] == 0)
             if outcome == 'ok':
                 upd['path'][p] = self.N(0)
+        elif name == 'exists':
+            # os.path.exists on a lock path: true iff the path is bound to an inode
+            pre.append(a['path'][p] != 0 if outcome == 'yes' else a['path'][p] == 0)
         elif name in ('enter', 'leave', 'done', 'halt'):
             pass
         else:
